@@ -195,13 +195,13 @@ let n_of_dec s = n_of_int (int_of_string s)
 let joinl l = if l = [] then "-" else String.concat ";" l
 
 let sval = function VNat n -> dec n | VRef e -> "r" ^ dec e
-let scomps cs = String.concat "+" (List.map (fun (k, v) -> dec k ^ "=" ^ sval v) cs)
+let scomps cs = String.concat "+" (List.map (fun (k, v) -> dec k ^ "=" ^ sval v) (List.sort (fun (a, _) (b, _) -> compare (int_of_n a) (int_of_n b)) cs))
 
 let print_update slot (u : update_msg) =
   Printf.printf "upd %s t=%s map=%s des=%s rem=%s chg=%s\n" (dec slot) (dec u.u_tick)
     (joinl (List.map (fun (s, pc) -> dec s ^ ">p" ^ dec pc) u.u_maps))
-    (joinl (List.map dec u.u_despawns))
-    (joinl (List.map (fun (e, ks) -> dec e ^ ":" ^ String.concat "+" (List.map dec ks)) u.u_removals))
+    (joinl (List.map string_of_int (List.sort compare (List.map int_of_n u.u_despawns))))
+    (joinl (List.map (fun (e, ks) -> dec e ^ ":" ^ String.concat "+" (List.map string_of_int (List.sort compare (List.map int_of_n ks)))) u.u_removals))
     (joinl (List.map (fun (e, cs) -> dec e ^ ":" ^ scomps cs) u.u_changes))
 
 let print_mutate track slot (m : mutate_msg) =
